@@ -150,17 +150,25 @@ class InitMethod(MethodDescriptor):
         # status.
         if instance_metadata.owner is spec_cls:
             if instance_metadata.init_overflow_attr:
-                getattr(
-                    self, f"with_{instance_metadata.init_overflow_attr}"
-                )(  # TODO: avoid this
-                    {
-                        key: value
-                        for key, value in kwargs.items()
-                        if key not in instance_metadata.annotations
-                        or not instance_metadata.attrs[key].init
-                        or key == instance_metadata.init_overflow_attr
-                    },
-                    _inplace=True,
+                # (Not looked up by name on the instance: the class may define
+                # `with_<overflow attr>` itself.)
+                mutate_attr(
+                    obj=self,
+                    attr=instance_metadata.init_overflow_attr,
+                    value=prepare_attr_value(
+                        attr_spec=instance_metadata.attrs[
+                            instance_metadata.init_overflow_attr
+                        ],
+                        instance=self,
+                        value={
+                            key: value
+                            for key, value in kwargs.items()
+                            if key not in instance_metadata.annotations
+                            or not instance_metadata.attrs[key].init
+                            or key == instance_metadata.init_overflow_attr
+                        },
+                    ),
+                    inplace=True,
                 )
 
             # Look `__post_init__` up on the instance's class (as Python would),
